@@ -94,6 +94,14 @@ CHECKS.update({
         ref="§5 C15"),
 })
 
+CHECKS.update({
+    "C16": dict(
+        technique="translator (go/packages + SSA) regenerates lock/call/access facts from the Go source every run; verified checker LockCheck.check with a soundness theorem for all programs; current_tree_ok proved by vm_compute on the regenerated facts",
+        text="Theorem (Properties/C16.v): check p = true implies no path from any entry point re-acquires the held lock, touches mutable shared state with the lock free, blocks while holding it, or uses the lock irregularly. The facts of the current tree (76 functions, 12 entry points) are regenerated and the instance theorem is re-proved on every run; a failing instance yields the offending call path.",
+        note="Trusted: the translator's notion of access (tracked fields), callee resolution (static, class-hierarchy inside the two packages, escaping function values, interface conversions) and entry points; construction-time code is exempt as the property says; API calls made under the lock are assumed to return. Coq kernel.",
+        ref="§5 C16"),
+})
+
 NOT_APPLICABLE = []
 
 def main():
